@@ -915,4 +915,4 @@ ENGINES.append({"name": "wk", "path": "/verif/harness/checks/src/bin/wk.rs", "se
 
 NOT_CLAIMED = {}
 
-NOTES = "All checks are bounded-exhaustive explorations of executions of the real code (no sampling decides a verdict). bin/check exits 2 for machinery failures."
+NOTES = "All checks are bounded-exhaustive explorations of executions of the real code. The one free-running part is C15's complement for unsynchronised accesses that no controlled scheduler can see (real threads, natively and under helgrind); it can only add violations, the exhaustive explorations decide that a property held. bin/check exits 2 for machinery failures."
